@@ -107,9 +107,29 @@ def run(tier, seed):
     for L in (60, 3600, 86400, 90061, 604800, 1209600, 52 * 604800):
         for text in dur_spellings(rnd, L) + (['+P%dW' % (L // 604800)] if L % 604800 == 0 else []):
             cases.append(('DURATION', L, text))
+    # DTSTART and DTEND as wall-clock times of one zone on either side of a change of its offset: the span is the time that passes
+    # between the two instants (given here as text in the zone, and to the model as the UTC instants they are)
+    ZSW = [('Europe/Berlin', '20240331T015958', '20240331T030001', (2024, 3, 31, 0, 59, 58), (2024, 3, 31, 1, 0, 1)),
+           ('Europe/Berlin', '20241027T015958', '20241027T030001', (2024, 10, 26, 23, 59, 58), (2024, 10, 27, 2, 0, 1)),
+           ('America/New_York', '20240310T015959', '20240310T030002', (2024, 3, 10, 6, 59, 59), (2024, 3, 10, 7, 0, 2)),
+           ('America/New_York', '20241103T005900', '20241103T030000', (2024, 11, 3, 4, 59, 0), (2024, 11, 3, 8, 0, 0)),
+           ('Australia/Sydney', '20241006T015930', '20241006T030030', (2024, 10, 5, 15, 59, 30), (2024, 10, 5, 16, 0, 30)),
+           ('Europe/Berlin', '20240615T100000', '20240615T100007', (2024, 6, 15, 8, 0, 0), (2024, 6, 15, 8, 0, 7))]
+    for z in ZSW: cases.append(('DTENDTZ', 0, z))
     sp = f'{wd}/spool'; xd = f'{wd}/x'; os.makedirs(sp, exist_ok=True); os.makedirs(xd, exist_ok=True)
     def one(c):
         kind, L, text = c
+        if kind == 'DTENDTZ':
+            zn, a, b, ua, ub = text
+            ev = ['BEGIN:VEVENT', 'UID:lim', 'SUMMARY:true', 'DTSTART;TZID=%s:%s' % (zn, a), 'DTEND;TZID=%s:%s' % (zn, b), 'RDATE:' + daemon.secs(10), 'END:VEVENT']
+            rec = {'e': 'Limit', 'kind': 'DTEND', 'L_input': 0, 'zone': zn, 'ds': list(ua) + [1023], 'de': list(ub) + [1023]}
+            vt = echsd_hop(drv, sp, ev)
+            if vt is None:
+                rec['nospawn'] = True; rec['durlinec'] = []; rec['alarm'] = 0; return rec
+            m = re.search(r'^DURATION:([^\n]*)', vt, re.M)
+            rec['durline'] = m.group(1) if m else ''; rec['durlinec'] = codes(rec['durline'])
+            rec['alarm'], rec['starts'], _ = echsx_alarm(B, shim, xd, vt)
+            return rec
         ev = ['BEGIN:VEVENT', 'UID:lim', 'SUMMARY:true', 'DTSTART:' + daemon.secs(10), 'RDATE:' + daemon.secs(10)]
         rec = {'e': 'Limit', 'kind': kind, 'L_input': L}
         if kind == 'DURATION':
